@@ -2174,8 +2174,9 @@ class SInterp:
         return out
 
 
-class ARegex:
+class ARegex(AObj):
     def __init__(self, pattern: str):
+        super().__init__("regex")
         self.pattern = pattern
 
     def key(self) -> tuple:
